@@ -504,7 +504,8 @@ func (c *DefaultCtx) Format(handlers ...ResFmt) error {
 	c.Vary(HeaderAccept)
 
 	if c.Get(HeaderAccept) == "" {
-		c.Response().Header.SetContentType(handlers[0].MediaType)
+		// handler-supplied: Set replaces CR/LF, SetContentType would store them verbatim
+		c.Set(HeaderContentType, handlers[0].MediaType)
 		return handlers[0].Handler(c)
 	}
 
@@ -532,7 +533,8 @@ func (c *DefaultCtx) Format(handlers ...ResFmt) error {
 
 	for _, h := range handlers {
 		if h.MediaType == accept {
-			c.Response().Header.SetContentType(h.MediaType)
+			// handler-supplied: Set replaces CR/LF, SetContentType would store them verbatim
+			c.Set(HeaderContentType, h.MediaType)
 			return h.Handler(c)
 		}
 	}
